@@ -137,7 +137,7 @@ def run_task(P, task, prop, tier, out):
             X = Exec(P, models.std_hooks())
             st = State()
             _, args, kwargs, starargs, starkw = arg_sets(st, K)[vi]
-            st.frames = [{"__module__": P.module_of_class(K)}]
+            st.frames = [{"%module": P.module_of_class(K)}]
             try:
                 if entry == "__init__":
                     res = X.B.instantiate(st, K, args, kwargs, starargs=starargs, starkw=starkw)
